@@ -50,13 +50,6 @@ func guard(what string, f func()) (p string) {
 	return ""
 }
 
-func ints(a []int) []int {
-	if a == nil {
-		return []int{}
-	}
-	return a
-}
-
 func pow4(k int) int { return 1 << (2 * uint(k)) }
 
 // plan says what to ask of one index.
@@ -71,14 +64,50 @@ type plan struct {
 	pick   func(n int) int
 }
 
+// Sentinel is what the driver writes over every element of every slice and map it was handed by a
+// query, as a caller is free to do with its own results.  No position and no count is negative.
+const Sentinel = -7
+
+// scribble overwrites every element of a slice the driver was handed.
+func scribble(p []int) {
+	for i := range p {
+		p[i] = Sentinel
+	}
+}
+
+func scribbleKmers(f []kmerindex.Kmer) {
+	s := Sentinel
+	for i := range f {
+		f[i] = kmerindex.Kmer(s)
+	}
+}
+
+// copyInts is the driver's own copy of a result, taken before the result is overwritten.
+func copyInts(a []int) []int {
+	r := make([]int, len(a))
+	copy(r, a)
+	return r
+}
+
 // Case builds an index of s with word length k (MinKmerLen lowered to mink) and logs the battery.
+//
+// The index is used as a caller may use it: every slice and every map a query hands out is the
+// caller's, so after each such query (and after its answer has been copied to the log) the driver
+// overwrites every element of what it was handed with Sentinel.  When all questions have been asked
+// once, the whole set of questions - frequencies before Build; Check, the maps, the single look-ups and
+// the array accessors after Build - is asked again.  Both rounds are logged (the second under the same
+// names with the suffix "2") and both are judged by the trace specification.
 func Case(s []byte, k, mink int, pl plan) vt.Ev {
 	ev := vt.Ev{"op": "case", "s": vt.Ints(s), "k": k, "mink": mink, "err": "", "panic": "",
-		"tiny": pl.tiny, "full": pl.full, "sfull": pl.sfull,
-		"freqok": false, "freq": [][2]int{}, "freqn": 0, "freqsum": 0, "fq": [][2]int{},
-		"chkok": false, "chkfound": 0, "indexn": 0, "index": []interface{}{}, "sindex": []interface{}{},
-		"q": []interface{}{}, "qt": []interface{}{}, "ranges": []interface{}{},
-		"fpre": []int{}, "fpost": []int{}, "posarr": []int{}}
+		"tiny": pl.tiny, "full": pl.full, "sfull": pl.sfull, "sentinel": Sentinel, "ranges": []interface{}{}}
+	for _, sfx := range []string{"", "2"} {
+		for name, v := range map[string]interface{}{
+			"freqok": false, "freq": [][2]int{}, "freqn": 0, "freqsum": 0, "fq": [][2]int{},
+			"chkok": false, "chkfound": 0, "indexn": 0, "index": []interface{}{}, "sindex": []interface{}{},
+			"q": []interface{}{}, "qt": []interface{}{}, "fpre": []int{}, "fpost": []int{}, "posarr": []int{}} {
+			ev[name+sfx] = v
+		}
+	}
 	panics := ""
 	note := func(p string) {
 		if p != "" && panics == "" {
@@ -99,110 +128,145 @@ func Case(s []byte, k, mink int, pl plan) vt.Ev {
 		return ev
 	}
 
-	// before Build: frequencies
-	var fm map[kmerindex.Kmer]int
-	var fok bool
-	note(guard("KmerFrequencies", func() { fm, fok = ki.KmerFrequencies() }))
-	ev["freqok"] = fok
-	ev["freqn"] = len(fm)
-	sum := 0
-	fr := make([][2]int, 0, len(fm))
-	for km, c := range fm {
-		sum += c
-		fr = append(fr, [2]int{int(km), c})
+	// before Build: frequencies, twice; the first map (and the first copy of the counts) is overwritten in between
+	freqs := func(sfx string) map[kmerindex.Kmer]int {
+		var fm map[kmerindex.Kmer]int
+		var fok bool
+		note(guard("KmerFrequencies"+sfx, func() { fm, fok = ki.KmerFrequencies() }))
+		ev["freqok"+sfx] = fok
+		ev["freqn"+sfx] = len(fm)
+		sum := 0
+		fr := make([][2]int, 0, len(fm))
+		mine := make(map[kmerindex.Kmer]int, len(fm))
+		for km, c := range fm {
+			sum += c
+			fr = append(fr, [2]int{int(km), c})
+			mine[km] = c
+		}
+		sort.Slice(fr, func(i, j int) bool { return fr[i][0] < fr[j][0] })
+		ev["freqsum"+sfx] = sum
+		if pl.full {
+			ev["freq"+sfx] = fr
+		}
+		for km := range fm {
+			fm[km] = Sentinel
+		}
+		if pl.tiny {
+			note(guard("Finger"+sfx, func() {
+				f := ki.Finger()
+				ev["fpre"+sfx] = kmersToInts(f)
+				scribbleKmers(f)
+			}))
+		}
+		return mine
 	}
-	sort.Slice(fr, func(i, j int) bool { return fr[i][0] < fr[j][0] })
-	ev["freqsum"] = sum
-	if pl.full {
-		ev["freq"] = fr
-	}
-	if pl.tiny {
-		note(guard("Finger", func() { ev["fpre"] = kmersToInts(ki.Finger()) }))
-	}
+	fm := freqs("")
+	fm2 := freqs("2")
 
 	note(guard("Build", func() { ki.Build() }))
 
-	var cok bool
-	var found int
-	note(guard("Check", func() { cok, found = ki.Check() }))
-	ev["chkok"], ev["chkfound"] = cok, found
+	// the words looked up one by one are chosen in the first round (asked words, and some words the
+	// index itself lists) and asked again in the second
+	var kmers []int
+	round := func(sfx string, fm map[kmerindex.Kmer]int) {
+		var cok bool
+		var found int
+		note(guard("Check"+sfx, func() { cok, found = ki.Check() }))
+		ev["chkok"+sfx], ev["chkfound"+sfx] = cok, found
 
-	var im map[kmerindex.Kmer][]int
-	note(guard("KmerIndex", func() { im, _ = ki.KmerIndex() }))
-	ev["indexn"] = len(im)
-	keys := make([]int, 0, len(im))
-	for km := range im {
-		keys = append(keys, int(km))
-	}
-	sort.Ints(keys)
-	if pl.full {
-		ix := make([]interface{}, 0, len(keys))
-		for _, km := range keys {
-			ix = append(ix, []interface{}{km, ints(im[kmerindex.Kmer(km)])})
+		var im map[kmerindex.Kmer][]int
+		note(guard("KmerIndex"+sfx, func() { im, _ = ki.KmerIndex() }))
+		ev["indexn"+sfx] = len(im)
+		keys := make([]int, 0, len(im))
+		for km := range im {
+			keys = append(keys, int(km))
 		}
-		ev["index"] = ix
-	}
-	if pl.sfull {
-		var sm map[string][]int
-		note(guard("StringKmerIndex", func() { sm, _ = ki.StringKmerIndex() }))
-		sk := make([]string, 0, len(sm))
-		for t := range sm {
-			sk = append(sk, t)
+		sort.Ints(keys)
+		if pl.full {
+			ix := make([]interface{}, 0, len(keys))
+			for _, km := range keys {
+				ix = append(ix, []interface{}{km, copyInts(im[kmerindex.Kmer(km)])})
+			}
+			ev["index"+sfx] = ix
 		}
-		sort.Strings(sk)
-		sx := make([]interface{}, 0, len(sk))
-		for _, t := range sk {
-			sx = append(sx, []interface{}{vt.Ints([]byte(t)), ints(sm[t])})
+		for _, p := range im {
+			scribble(p)
 		}
-		ev["sindex"] = sx
-	}
+		if pl.sfull {
+			var sm map[string][]int
+			note(guard("StringKmerIndex"+sfx, func() { sm, _ = ki.StringKmerIndex() }))
+			sk := make([]string, 0, len(sm))
+			for t := range sm {
+				sk = append(sk, t)
+			}
+			sort.Strings(sk)
+			sx := make([]interface{}, 0, len(sk))
+			for _, t := range sk {
+				sx = append(sx, []interface{}{vt.Ints([]byte(t)), copyInts(sm[t])})
+			}
+			ev["sindex"+sfx] = sx
+			for _, p := range sm {
+				scribble(p)
+			}
+		}
 
-	// single look-ups: asked words, and some words the index itself lists
-	kmers := append([]int{}, pl.kmers...)
-	for i := 0; i < pl.nkeys && len(keys) > 0; i++ {
-		kmers = append(kmers, keys[pl.pick(len(keys))])
-	}
-	q := make([]interface{}, 0, len(kmers))
-	fq := make([][2]int, 0, len(kmers))
-	for _, km := range kmers {
-		var pos []int
-		var e error
-		note(guard("KmerPositions", func() { pos, e = ki.KmerPositions(kmerindex.Kmer(km)) }))
-		q = append(q, []interface{}{km, vt.ErrStr(e), ints(pos)})
-		if km >= 0 && km < pow4(k) {
-			fq = append(fq, [2]int{km, fm[kmerindex.Kmer(km)]})
+		if sfx == "" {
+			kmers = append([]int{}, pl.kmers...)
+			for i := 0; i < pl.nkeys && len(keys) > 0; i++ {
+				kmers = append(kmers, keys[pl.pick(len(keys))])
+			}
+		}
+		q := make([]interface{}, 0, len(kmers))
+		fq := make([][2]int, 0, len(kmers))
+		for _, km := range kmers {
+			var pos []int
+			var e error
+			note(guard("KmerPositions"+sfx, func() { pos, e = ki.KmerPositions(kmerindex.Kmer(km)) }))
+			q = append(q, []interface{}{km, vt.ErrStr(e), copyInts(pos)})
+			scribble(pos)
+			if km >= 0 && km < pow4(k) {
+				fq = append(fq, [2]int{km, fm[kmerindex.Kmer(km)]})
+			}
+		}
+		ev["q"+sfx], ev["fq"+sfx] = q, fq
+		qt := make([]interface{}, 0, len(pl.texts))
+		for _, t := range pl.texts {
+			var pos []int
+			var e error
+			// a panic is logged with the look-up: texts that are not ASCII are outside the statement
+			p := guard("KmerPositionsString"+sfx, func() { pos, e = ki.KmerPositionsString(string(t)) })
+			qt = append(qt, []interface{}{vt.Ints(t), vt.ErrStr(e), copyInts(pos), p})
+			scribble(pos)
+		}
+		ev["qt"+sfx] = qt
+
+		if sfx == "" {
+			rs := make([]interface{}, 0, len(pl.ranges))
+			for _, r := range pl.ranges {
+				vis := [][2]int{}
+				var e error
+				note(guard("ForEachKmerOf", func() {
+					e = ki.ForEachKmerOf(sq, r[0], r[1], func(_ *kmerindex.Index, pos, kmer int) {
+						vis = append(vis, [2]int{pos, kmer})
+					})
+				}))
+				rs = append(rs, []interface{}{r[0], r[1], vt.ErrStr(e), vis})
+			}
+			ev["ranges"] = rs
+		}
+
+		if pl.tiny {
+			note(guard("Finger/Pos"+sfx, func() {
+				f, p := ki.Finger(), ki.Pos()
+				ev["fpost"+sfx] = kmersToInts(f)
+				ev["posarr"+sfx] = copyInts(p)
+				scribbleKmers(f)
+				scribble(p)
+			}))
 		}
 	}
-	ev["q"], ev["fq"] = q, fq
-	qt := make([]interface{}, 0, len(pl.texts))
-	for _, t := range pl.texts {
-		var pos []int
-		var e error
-		// a panic is logged with the look-up: texts that are not ASCII are outside the statement
-		p := guard("KmerPositionsString", func() { pos, e = ki.KmerPositionsString(string(t)) })
-		qt = append(qt, []interface{}{vt.Ints(t), vt.ErrStr(e), ints(pos), p})
-	}
-	ev["qt"] = qt
-
-	rs := make([]interface{}, 0, len(pl.ranges))
-	for _, r := range pl.ranges {
-		vis := [][2]int{}
-		var e error
-		note(guard("ForEachKmerOf", func() {
-			e = ki.ForEachKmerOf(sq, r[0], r[1], func(_ *kmerindex.Index, pos, kmer int) {
-				vis = append(vis, [2]int{pos, kmer})
-			})
-		}))
-		rs = append(rs, []interface{}{r[0], r[1], vt.ErrStr(e), vis})
-	}
-	ev["ranges"] = rs
-
-	if pl.tiny {
-		note(guard("Finger/Pos", func() {
-			ev["fpost"] = kmersToInts(ki.Finger())
-			ev["posarr"] = ints(ki.Pos())
-		}))
-	}
+	round("", fm)
+	round("2", fm2)
 	ev["panic"] = panics
 	return ev
 }
